@@ -578,7 +578,24 @@ def edge_facts(fn, bb):
                 fs.extend(_named_alias_facts(fn, t['o'], vals))
                 res.append(fs)
             else:
-                res.append(_facts_for_value(fn, S, term, label, listed))
+                fs = _facts_for_value(fn, S, term, label, listed)
+                # the discriminated place, under its user-visible name
+                o = t['o']
+                if term[0] == 'disc' and o[0] in ('c', 'm') and not o[1][1]:
+                    ds = fn.defs.get(o[1][0], [])
+                    if len(ds) == 1 and ds[0][0] == 'stmt' and ds[0][3]['k'] == 'disc':
+                        pl = ds[0][3]['p']
+                        nm = fn.local_name(pl[0])
+                        if nm:
+                            desc = nm + ''.join(x for x in pl[1] if x != '*')
+                            vm = _variant_map(term[3])
+                            if label == 'otherwise':
+                                names = {n for v, n in vm.items() if v not in listed}
+                            else:
+                                names = {vm.get(label, '#' + label)}
+                            if not any(f_.kind == 'place' and f_.desc == desc for f_ in fs):
+                                fs.append(Fact('place', None, desc, names))
+                res.append(fs)
     elif t['k'] == 'assert':
         term = S.operand(t['o'])
         vals = {'true'} if t['e'] else {'false'}
